@@ -128,6 +128,18 @@ Lemma skip_default_dict_kwargs_witness :
              veq w' (spec p_kw [(VStr k_dict_kwargs, VDict [(VStr ka, VInt 1)])]) = false.
 Proof. split; [reflexivity|]. eexists. split; vm_compute; reflexivity. Qed.
 
+(* skip_default: default spec S{a: 5, b: 2}, value B{a: 1} (1 = B's own default): only class_path is written, and the
+   re-parse carries a = 5 over from the default spec *)
+Definition p_sub : str := [83]%N.
+Definition sub2_ty : cty := CSub [(p_base, CData [(ka, CInt, VInt 1)]); (p_sub, CData [(kb, CInt, VInt 2); (ka, CInt, VInt 1)])].
+Lemma skip_default_carry_over_witness :
+  exists w', rt some_text yaml_skipdef
+               {| lf_key := kx; lf_ty := sub2_ty;
+                  lf_def := spec p_sub [(VStr k_init_args, VDict [(VStr kb, VInt 2); (VStr ka, VInt 5)])] |}
+               (spec p_base [(VStr k_init_args, VDict [(VStr ka, VInt 1)])]) = Some w' /\
+             veq w' (spec p_base [(VStr k_init_args, VDict [(VStr ka, VInt 1)])]) = false.
+Proof. eexists. split; vm_compute; reflexivity. Qed.
+
 (* JSON: float inf is written Infinity, which the loader's table takes for a str: the re-parse is rejected *)
 Lemma json_nonfinite_witness :
   matches json_float_out (inf_text (FInf false)) = true /\ resolve loader_table (inf_text (FInf false)) = TgStr /\
